@@ -98,7 +98,13 @@ impl Variable {
                 Some(Self::Tuple(elements))
             }
             Type::Void => Some(Variable::Void),
-            Type::Multi(multi_type) => multi_type.iter().next().and_then(Self::of_type),
+            // the same member whatever order the union is iterated in: the first one,
+            // by canonical text, that has a default
+            Type::Multi(multi_type) => {
+                let mut members: Box<[&Type]> = multi_type.iter().collect();
+                members.sort_by_cached_key(|member| member.canonical_string());
+                members.iter().find_map(|member| Self::of_type(member))
+            }
             Type::Mut(arc) => Some(
                 Mut {
                     var_type: arc.as_ref().clone(),
